@@ -1,5 +1,5 @@
 """Texts for MANIFEST.json, per property."""
-HOOK_COMMITS = ['38a46f2', '3202107', '9a6c05b']
+HOOK_COMMITS = ['38a46f2', '3202107', '9a6c05b', 'e8ea72d', 'a4f0878']
 
 TEXT = {
  'C09': dict(
@@ -20,5 +20,35 @@ TEXT['C10'] = dict(
   design_ref='DESIGN.md §5 C10',
   note='Trusted: Coq kernel, Go harness + LoaderCheck.v, hook files. Modelled not verified: hclsyntax scanner/parser (their output is the model input; ranges_wf checked per case). No axioms.',
   technique='Coq proof (induction over body trees and traversals) + differential model-code correspondence')
+
+TEXT['C04'] = dict(
+  level='Machine-checked Coq theorems stated ONCE against an abstract body interface (Lawful) and instantiated for executable models of hclsyntax.Body, json.body (over ANY JSON value) and mergedBodies (over ANY lawful children, so nested and mixed-syntax merges): every matching attribute/block is returned exactly once, blocks in source order per type; exhaustive processing reports exactly the non-matching visible items; the partial remainder is the original minus the consumed items; and the spec.md law: partial(S1) then content(S2) on the remainder equals content(S1 u S2) for name-disjoint schemata, generalised by induction to any k >= 2 parts. Tied to the code on every run by differential execution of generated partial/content histories over native, JSON, merged and dynblock-expanded bodies, plus a direct oracle of the laws on the real code.',
+  design_ref='DESIGN.md §5 C04',
+  note='Trusted: Coq kernel, Go harness + BodyCheck.v. Modelled not verified: parsers producing the bodies. expandBody/unknownBody: no proved law (checker model + oracle). No axioms.',
+  technique='Coq proof (laws against an interface, induction over schema parts) + differential correspondence')
+
+TEXT['C07'] = dict(
+  level='Machine-checked Coq theorems over the calibrated evaluator model (Eval/Impl.v) and the model of hclsyntax.Variables (Eval/Vars.v), for the WHOLE expression language, any context chain and any fuel: if two contexts agree on the reported root names (and function tables) the evaluation result - value AND diagnostics - is identical (coincidence); hence pruning every frame to the reported roots changes nothing and changing an unreported variable changes nothing; names bound by for expressions / template for directives are never reported except through a free occurrence in the collection expression. The model is tied to the code by the ceval correspondence (value, diagnostics and Variables() compared on generated cases). JSON expressions, hcldec.Variables and the dynblock walkers are decided per run by a direct oracle on the real code (pruned / perturbed scopes).',
+  design_ref='DESIGN.md §5 C07',
+  note='Trusted: Coq kernel, Go harness + EvalCheck.v. Modelled not verified: go-cty. Partial: JSON/hcldec/dynblock walkers by oracle only. No axioms.',
+  technique='Coq proof (induction on evaluator fuel with local-scope generalisation) + differential correspondence + direct oracle')
+
+TEXT['C14'] = dict(
+  level='Machine-checked Coq theorems: (a) a GENERIC longest-match scanner engine with Ragel semantics (modes, call stack, fhold, error state) tiles ANY input for ANY rule set - tokens in source order, non-overlapping, bytes = source slice, exactly one EOF at the end, gaps exactly the matches of non-emitting rules; for the HCL rule sets (transcribed from scan_tokens.rl, Unicode identifier tables regenerated from unicode_derived.rl) every gap is spaces/tabs and scanning never runs out of fuel or panics, for every input and all three entry modes; (b) for ANY start position, source and grapheme segmentation, if tokens tile with blank gaps and token boundaries are cluster boundaries, every Start/End that the emitToken model computes equals the canonical position (count newlines and clusters up to the offset); the same for hcl.RangeScanner, which provably agrees with the lexer convention. The model is tied to the running code (Ragel-generated DFA) by differential testing of token streams and positions on every run; range fidelity of parsed nodes is decided by the direct oracle.',
+  design_ref='DESIGN.md §5 C14',
+  note='Trusted: Coq kernel, gentables (unicode tables), Go harness + LexCheck.v. Modelled not verified: scan_tokens.go generated tables, go-textseg (oracle input). Partial: part (c) range fidelity by oracle only. No axioms.',
+  technique='Coq proof (generic scanner tiling by induction; position invariant) + regenerated Unicode tables + differential correspondence')
+
+TEXT['C11'] = dict(
+  level='Machine-checked Coq theorems over models of escapeQuotedStringLit, the stringTemplate scanner and ParseStringLiteralToken: for EVERY is_print (with is_print of the brace character true) and EVERY string of Unicode scalar values, the escaped text contains no raw newline, is scanned as literal tokens only (no template introducer survives) and un-escapes to exactly the UTF-8 of the string; generated value tokens are balanced, keys are identifiers or codec-correct quoted strings, a generated mapping is never read as a for expression; traversal tokens have the documented shape; labels written through the API read back (freshly built and after reloading) for ALL labels. Tied to the code on every run by differential execution (escape, tokens, unescape, scanner pieces, labels; exhaustive small-alphabet scanner inputs; exhaustive rune table in Go). The end-to-end value round trip through the real parser/evaluator is decided by the direct oracle.',
+  design_ref='DESIGN.md §5 C11',
+  note='Trusted: Coq kernel, Go harness + GenerateCheck.v, hook file. Parameters (not axioms): is_print, valid_ident. Modelled not verified: big.Float formatting, go-cty iteration/NFC, parser+evaluator. No axioms.',
+  technique='Coq proof (string codec by induction over runes; token-shape lemmas) + exhaustive/differential correspondence + direct oracle')
+
+TEXT['C20'] = dict(
+  level='Machine-checked Coq theorems over the calibrated evaluator model: whenever an expression has a static traversal (plain shape), evaluating it in ANY context gives the same value and error-ness as applying the traversal to the context; the keyword and object-key deviations are stated exactly with witnesses; static list / map / call parts evaluate to the elements / pairs / arguments of the whole (later duplicate key wins); for EVERY type of the constraint language (primitives, any, list/set/map, tuple, object with identifier attribute names, nested arbitrarily) get_type(type_expr ty) = ty. Static.v / TypeExpr.v are tied to the code by differential execution on every run; the stand-alone traversal parser and the TEXT round trip of types (native and JSON) are decided by the direct oracle on the real code.',
+  design_ref='DESIGN.md §5 C20',
+  note='Trusted: Coq kernel, Go harness + StaticCheck.v/TypeExprCheck.v, evaluator model (ceval correspondence). Partial: parser-dependent statements by oracle only. No axioms.',
+  technique='Coq proof (induction on expressions / types) + differential correspondence + direct oracle')
 
 NOT_APPLICABLE = {p: 'not yet built in this round (the design in DESIGN.md applies; no check is registered until its floor exists)' for p in ['C%02d' % i for i in range(1, 21)]}
